@@ -23,6 +23,11 @@
 //! attached sink (a gate in the harness' sink) while another thread drops the attach handle; the detach must
 //! not return before the append completed; judged by the same Lean predicate and an accounting oracle.
 //!
+//! Install-during-slow-drop case line: `adrace <a|r|t> <wait ms> <3|4> | init=- <ops>` (see `AdCase`): an attach
+//! while another thread's detach is parked inside the drop of the old (sink, join handle) pair, and the
+//! mirrors for runtime / thread-local test sinks; judged by "some sequential order of the overlapping ops explains
+//! every result" and by the Lean micro-step model (`take` .. `dropPair`).
+//!
 //! Oracle (independent of Lean, written from the property statement): a tracker of what is installed
 //! where (attached sink, live handle, per-thread and per-runtime test sinks, held sink clones) predicts for
 //! every op the single destination by the stated precedence (thread-local, else current runtime's, else
@@ -135,6 +140,37 @@ impl EntrySink<BoxEntry> for RecSink {
     }
 }
 
+/// a join handle (the second component of what is attached) whose drop is slow: it announces itself and
+/// waits until the harness opens the gate
+struct GatedDrop(Arc<Gate>);
+
+impl Drop for GatedDrop {
+    fn drop(&mut self) {
+        self.0.pass();
+    }
+}
+
+/// a test sink whose drop is slow in the same way (dropped by the guard that removes it from its slot)
+struct GatedDropSink {
+    inner: RecSink,
+    gate: Arc<Gate>,
+}
+
+impl EntrySink<BoxEntry> for GatedDropSink {
+    fn append(&self, entry: BoxEntry) {
+        self.inner.append(entry)
+    }
+    fn flush_async(&self) -> FlushWait {
+        FlushWait::ready()
+    }
+}
+
+impl Drop for GatedDropSink {
+    fn drop(&mut self) {
+        self.gate.pass();
+    }
+}
+
 // ------------------------------------------------------------------------------------------------
 // the globals: declared with the real macro; a table of fn pointers gives dynamic access
 
@@ -143,6 +179,7 @@ struct Vt {
     attach: fn(RecSink) -> AttachHandle,
     attach_stream: fn(RecStream) -> AttachHandle,
     attach_queue: fn(RecStream, usize) -> AttachHandle,
+    attach_gated: fn(RecSink, GatedDrop) -> AttachHandle,
     append: fn(Tagged),
     try_append: fn(Tagged) -> Result<(), Tagged>,
     sink: fn() -> BoxEntrySink,
@@ -161,6 +198,7 @@ macro_rules! globals {
             attach: |s| $n::attach((s, ())),
             attach_stream: |s| $n::attach_to_stream(s),
             attach_queue: |s, cap| $n::attach(BackgroundQueueBuilder::new().capacity(cap).build::<BoxEntry>(s)),
+            attach_gated: |s, h| $n::attach((s, h)),
             append: |e| $n::append(e),
             try_append: |e| $n::try_append(e),
             sink: || $n::sink(),
@@ -959,33 +997,56 @@ impl Shard {
         let mut failure: Option<(String, String)> = None;
         let mut seen = 0usize;
         for (i, it) in case.ops.iter().enumerate() {
-            let (op, sh, log, hs) = (it.op.clone(), shared.clone(), self.log.clone(), self.crew.handles.clone());
-            let raw = self.crew.exec(
-                it.t,
-                Crew::mode_for(it.t, it.r),
-                Box::new(move |local| exec_op(g, &op, local, &sh, &log, &hs)),
-            );
-            let delta: Vec<Rec> = {
-                let l = self.log.lock().unwrap();
-                let d = l[seen..].to_vec();
-                seen = l.len();
-                d
-            };
-            let (res, problem) = canonical(it, &raw, &delta);
-            let (want, class) = tracker.expect(it);
-            if failure.is_none() {
-                if let Some(p) = problem {
-                    failure = Some(("exactly-one".into(), format!("op {i} `{}`: {p}", it.encode())));
-                } else if res != want {
-                    let class = if res == "panic" || want == "panic" { format!("panic:{class}") } else { class.to_string() };
-                    failure = Some((
-                        class,
-                        format!("op {i} `{}`: the property requires `{want}`, the implementation did `{res}` (raw `{raw}`)", it.encode()),
-                    ));
-                }
-            }
+            let (res, problem, raw) = self.exec_item(g, &shared, it, &mut seen);
+            Self::judge(&mut tracker, &mut failure, i, it, &res, problem, &raw);
             results.push(res);
         }
+        let (stuck_now, _) = self.finish(g, &shared, case.init, &mut failure);
+        Some(Outcome {
+            results,
+            failure,
+            nontrivial: tracker.contested || tracker.panic_then_delivery,
+            forgot: stuck_now && case.init.is_none(),
+        })
+    }
+
+    /// run one op on its thread/context; canonical observable, anomaly (if any), raw outcome
+    fn exec_item(&self, g: usize, shared: &Arc<Mutex<Shared>>, it: &Item, seen: &mut usize) -> (String, Option<String>, String) {
+        let (op, sh, log, hs) = (it.op.clone(), shared.clone(), self.log.clone(), self.crew.handles.clone());
+        let raw = self.crew.exec(
+            it.t,
+            Crew::mode_for(it.t, it.r),
+            Box::new(move |local| exec_op(g, &op, local, &sh, &log, &hs)),
+        );
+        let delta: Vec<Rec> = {
+            let l = self.log.lock().unwrap();
+            let d = l[*seen..].to_vec();
+            *seen = l.len();
+            d
+        };
+        let (res, problem) = canonical(it, &raw, &delta);
+        (res, problem, raw)
+    }
+
+    /// compare one observable with what the property requires (the tracker is advanced)
+    fn judge(tracker: &mut Tracker, failure: &mut Option<(String, String)>, i: usize, it: &Item, res: &str, problem: Option<String>, raw: &str) {
+        let (want, class) = tracker.expect(it);
+        if failure.is_none() {
+            if let Some(p) = problem {
+                *failure = Some(("exactly-one".into(), format!("op {i} `{}`: {p}", it.encode())));
+            } else if res != want {
+                let class = if res == "panic" || want == "panic" { format!("panic:{class}") } else { class.to_string() };
+                *failure = Some((
+                    class,
+                    format!("op {i} `{}`: the property requires `{want}`, the implementation did `{res}` (raw `{raw}`)", it.encode()),
+                ));
+            }
+        }
+    }
+
+    /// end of a case: drop everything, check the global is back in its resting state, pool bookkeeping;
+    /// returns (left attached forever, kept in the pool)
+    fn finish(&mut self, g: usize, shared: &Arc<Mutex<Shared>>, init: Option<u64>, failure: &mut Option<(String, String)>) -> (bool, bool) {
         // every case ends detached: drop thread-local guards on their threads, runtime guards, the handle
         let mut cleanup_panic = None;
         for t in 0..THREADS {
@@ -1013,7 +1074,7 @@ impl Shard {
         if let Err(p) = catch(|| drop(handle)) {
             cleanup_panic = Some(p);
         }
-        let stuck_now = forgot.is_some() || case.init.is_some();
+        let stuck_now = forgot.is_some() || init.is_some();
         // observe the final state from every thread (a leaked thread-local sink) and from inside both runtimes
         let mut leftover = None;
         for (t, mode) in [
@@ -1050,35 +1111,32 @@ impl Shard {
         let (cleanup_panic_seen, leftover_seen) = (cleanup_panic.clone(), leftover.clone());
         if failure.is_none() {
             if let Some(p) = cleanup_panic {
-                failure = Some(("panic:cleanup".into(), format!("dropping a guard/handle at the end of the case panicked: {p}")));
+                *failure = Some(("panic:cleanup".into(), format!("dropping a guard/handle at the end of the case panicked: {p}")));
             } else if let Some(l) = leftover {
-                failure = Some(("restore".into(), l));
+                *failure = Some(("restore".into(), l));
             }
         }
         // bookkeeping of the pool
+        let mut kept = true;
         if failure.is_some() {
             // keep the global only if it demonstrably still works (no poisoned lock, nothing left installed)
             let healthy = cleanup_panic_seen.is_none() && leftover_seen.is_none() && self.healthy(g, stuck_now);
             if !healthy {
                 self.retire(g);
+                kept = false;
             } else if let Some(label) = forgot {
-                if case.init.is_none() {
+                if init.is_none() {
                     self.clean.retain(|x| *x != g);
                     self.stuck.push((g, label));
                 }
             }
         } else if let Some(label) = forgot {
-            if case.init.is_none() {
+            if init.is_none() {
                 self.clean.retain(|x| *x != g);
                 self.stuck.push((g, label));
             }
         }
-        Some(Outcome {
-            results,
-            failure,
-            nontrivial: tracker.contested || tracker.panic_then_delivery,
-            forgot: stuck_now && case.init.is_none(),
-        })
+        (stuck_now, kept)
     }
 }
 
@@ -1118,6 +1176,7 @@ impl Drop for RecStream {
 enum Conc {
     Race(RaceCase),
     Gate(GateCase),
+    Ad(AdCase),
 }
 
 impl Conc {
@@ -1125,10 +1184,11 @@ impl Conc {
         match self {
             Conc::Race(r) => r.encode(),
             Conc::Gate(g) => g.encode(),
+            Conc::Ad(a) => a.encode(),
         }
     }
     fn decode(s: &str) -> Option<Conc> {
-        RaceCase::decode(s).map(Conc::Race).or_else(|| GateCase::decode(s).map(Conc::Gate))
+        RaceCase::decode(s).map(Conc::Race).or_else(|| GateCase::decode(s).map(Conc::Gate)).or_else(|| AdCase::decode(s).map(Conc::Ad))
     }
 }
 
@@ -1474,6 +1534,350 @@ impl Shard {
 }
 
 // ------------------------------------------------------------------------------------------------
+// install during a slow drop (deterministic): attach during detach, and the test-sink mirrors
+
+/// Case line: `adrace <kind a|r|t> <wait ms> <block 3|4> | init=- <ops>`.
+/// ops[0] installs an object whose drop is gated by the harness (kind `a`: `attach((sink, slow join handle))`;
+/// `r`: a runtime test sink with a slow drop; `t`: a thread-local test sink with a slow drop);
+/// ops[1] (A) drops its handle / guard and parks inside the old object's drop; while it is parked
+/// ops[2] (B, another thread: installs a replacement) and, if block = 4, ops[3] (C, a third thread: an append)
+/// are issued; they may complete at once or only after the gate opens (both are fine); the gate opens, all are
+/// joined; the remaining ops run sequentially and observe the final state.
+/// Judgement: A, B, C overlap, so the property allows any sequential order of them; there must be one that
+/// explains every result of the block *and* of the ops after it (exactly one sink installed, routed to, a
+/// further install panics, dropping it restores ...).
+#[derive(Clone, Debug)]
+struct AdCase {
+    kind: char,
+    wait_ms: u64,
+    block: usize,
+    case: Case,
+}
+
+impl AdCase {
+    fn encode(&self) -> String {
+        format!("adrace {} {} {} | {}", self.kind, self.wait_ms, self.block, self.case.encode())
+    }
+    fn decode(s: &str) -> Option<AdCase> {
+        let (head, rest) = s.split_once(" | ")?;
+        let v: Vec<&str> = head.split_whitespace().collect();
+        if v.len() != 4 || v[0] != "adrace" {
+            return None;
+        }
+        let kind = v[1].chars().next()?;
+        let c = AdCase { kind, wait_ms: v[2].parse().ok()?, block: v[3].parse().ok()?, case: Case::decode(rest)? };
+        let ops = &c.case.ops;
+        let ok = matches!(kind, 'a' | 'r' | 't')
+            && (c.block == 3 || c.block == 4)
+            && ops.len() >= c.block
+            && c.wait_ms <= 2000
+            && c.case.init.is_none()
+            && match (kind, &ops[0].op, &ops[1].op, &ops[2].op) {
+                ('a', Op::Attach(_), Op::DropAttach(_), Op::Attach(_)) => true,
+                ('r', Op::SetRT(k, _), Op::DropRT(k1, _), Op::SetRT(..) | Op::SetRTCur(_)) => k == k1,
+                ('t', Op::SetTL(_), Op::DropTL(_), Op::SetTL(_)) => ops[0].t == ops[1].t,
+                _ => false,
+            }
+            // A parks its thread, B may block: the three concurrent ops need three different threads
+            && ops[1].t != ops[2].t
+            && (c.block == 3 || (ops[3].entry().is_some() && ops[3].t != ops[1].t && ops[3].t != ops[2].t));
+        if ok { Some(c) } else { None }
+    }
+}
+
+struct AdOutcome {
+    /// request for the Lean driver (the sequential / micro-step order that explains the block) and the
+    /// implementation's results in that order
+    request: String,
+    results: String,
+    failure: Option<(String, String)>,
+    b_waited: bool,
+    order: String,
+}
+
+fn permutations(n: usize) -> Vec<Vec<usize>> {
+    fn rec(cur: &mut Vec<usize>, used: &mut Vec<bool>, out: &mut Vec<Vec<usize>>) {
+        if cur.len() == used.len() {
+            out.push(cur.clone());
+            return;
+        }
+        for i in 0..used.len() {
+            if !used[i] {
+                used[i] = true;
+                cur.push(i);
+                rec(cur, used, out);
+                cur.pop();
+                used[i] = false;
+            }
+        }
+    }
+    let mut out = vec![];
+    rec(&mut vec![], &mut vec![false; n], &mut out);
+    out
+}
+
+impl Shard {
+    fn adrace(&mut self, ad: &AdCase) -> Option<AdOutcome> {
+        let g = self.acquire(None)?;
+        self.log.lock().unwrap().clear();
+        let shared = Arc::new(Mutex::new(Shared::default()));
+        let ops = &ad.case.ops;
+        let gate = Arc::new(Gate::default());
+        let mut failure: Option<(String, String)> = None;
+        let mut tracker = Tracker::default();
+
+        // ---- ops[0]: install the object with the gated drop
+        let setup = {
+            let (op, sh, log, hs, gate, kind) = (ops[0].op.clone(), shared.clone(), self.log.clone(), self.crew.handles.clone(), gate.clone(), ad.kind);
+            self.crew.exec(
+                ops[0].t,
+                Crew::mode_for(ops[0].t, ops[0].r),
+                Box::new(move |local| {
+                    let vt = &GLOBALS[g];
+                    let mk = |s: u64| RecSink { label: Arc::new(AtomicU64::new(s)), log: log.clone(), gate: None };
+                    let r = match (kind, &op) {
+                        ('a', Op::Attach(s)) => {
+                            let sink = mk(*s);
+                            let label = sink.label.clone();
+                            catch(|| (vt.attach_gated)(sink, GatedDrop(gate))).map(|h| {
+                                sh.lock().unwrap().handle = Some((h, label));
+                            })
+                        }
+                        ('r', Op::SetRT(k, s)) => {
+                            let sink = BoxEntrySink::new(GatedDropSink { inner: mk(*s), gate });
+                            catch(|| (vt.set_rt)(&hs[*k], sink)).map(|guard| {
+                                sh.lock().unwrap().rt_guards[*k] = Some(guard);
+                            })
+                        }
+                        ('t', Op::SetTL(s)) => {
+                            let sink = BoxEntrySink::new(GatedDropSink { inner: mk(*s), gate });
+                            catch(|| (vt.set_tl)(sink)).map(|guard| {
+                                local.tl_guards.insert(g, guard);
+                            })
+                        }
+                        _ => Err("malformed adrace case".into()),
+                    };
+                    match r {
+                        Ok(()) => "done".into(),
+                        Err(p) => format!("panic:{p}"),
+                    }
+                }),
+            )
+        };
+        let mut results: Vec<String> = vec![];
+        let (res0, problem0) = canonical(&ops[0], &setup, &[]);
+        Self::judge(&mut tracker, &mut failure, 0, &ops[0], &res0, problem0, &setup);
+        results.push(res0);
+
+        // ---- the concurrent block
+        let submit = |me: &Shard, it: &Item| {
+            let (op, sh, log, hs) = (it.op.clone(), shared.clone(), me.log.clone(), me.crew.handles.clone());
+            me.crew.submit(it.t, Crew::mode_for(it.t, it.r), Box::new(move |local| exec_op(g, &op, local, &sh, &log, &hs)))
+        };
+        let a = submit(self, &ops[1]);
+        let t0 = std::time::Instant::now();
+        while gate.entered.load(Ordering::Acquire) == 0 && t0.elapsed().as_secs() < 20 {
+            std::thread::yield_now();
+        }
+        if gate.entered.load(Ordering::Acquire) == 0 && failure.is_none() {
+            failure = Some(("concurrent:slow-drop".into(), format!("`{}` never reached the drop of the object it removes", ops[1].encode())));
+        }
+        let b = submit(self, &ops[2]);
+        let c = if ad.block == 4 { Some(submit(self, &ops[3])) } else { None };
+        std::thread::sleep(std::time::Duration::from_millis(ad.wait_ms));
+        let b_early = b.try_recv().ok();
+        let a_early = a.try_recv().ok();
+        if a_early.is_some() && failure.is_none() {
+            failure = Some(("concurrent:slow-drop".into(), format!("`{}` returned before the drop of the removed object had finished", ops[1].encode())));
+        }
+        gate.open();
+        let raw_a = a_early.unwrap_or_else(|| a.recv().expect("crew reply"));
+        let b_waited = b_early.is_none();
+        let raw_b = b_early.unwrap_or_else(|| b.recv().expect("crew reply"));
+        let raw_c = c.map(|c| c.recv().expect("crew reply"));
+        let recs: Vec<Rec> = self.log.lock().unwrap().clone();
+        let mut seen = recs.len();
+        let mut block_raw = vec![raw_a, raw_b];
+        block_raw.extend(raw_c);
+        let mut block_res = vec![];
+        for (j, raw) in block_raw.iter().enumerate() {
+            let it = &ops[1 + j];
+            let delta: Vec<Rec> = match it.entry() {
+                Some(e) => recs.iter().filter(|r| r.entry == e).cloned().collect(),
+                None => vec![],
+            };
+            let (res, problem) = canonical(it, raw, &delta);
+            if let (Some(p), true) = (problem, failure.is_none()) {
+                failure = Some(("concurrent:exactly-one".into(), format!("`{}`: {p}", it.encode())));
+            }
+            block_res.push(res);
+        }
+        let carried: Vec<u64> = ops[1..ad.block].iter().filter_map(|i| i.entry()).collect();
+        if recs.iter().any(|r| !carried.contains(&r.entry)) && failure.is_none() {
+            failure = Some(("concurrent:exactly-one".into(), format!("records of unknown entries during the block: {recs:?}")));
+        }
+
+        // ---- the ops after the block, sequentially
+        let mut tail_res = vec![];
+        let mut tail_raw = vec![];
+        for it in &ops[ad.block..] {
+            let (res, problem, raw) = self.exec_item(g, &shared, it, &mut seen);
+            if let (Some(p), true) = (problem, failure.is_none()) {
+                failure = Some(("concurrent:exactly-one".into(), format!("`{}`: {p}", it.encode())));
+            }
+            tail_res.push(res);
+            tail_raw.push(raw);
+        }
+
+        // ---- is there a sequential order of the overlapping ops that explains everything?
+        let n = ad.block - 1;
+        let mut best: Option<(Vec<usize>, usize, String)> = None; // (order, ops explained, first mismatch)
+        for perm in permutations(n) {
+            let mut t = tracker.clone();
+            let mut explained = 0;
+            let mut mismatch = String::new();
+            let seq = perm.iter().map(|j| (&ops[1 + j], &block_res[*j])).chain(ops[ad.block..].iter().zip(tail_res.iter()));
+            for (it, res) in seq {
+                let (want, _) = t.expect(it);
+                if &want != res {
+                    mismatch = format!("`{}`: the property requires `{want}`, the implementation did `{res}`", it.encode());
+                    break;
+                }
+                explained += 1;
+            }
+            if best.as_ref().map(|b| explained > b.1).unwrap_or(true) {
+                best = Some((perm, explained, mismatch));
+            }
+        }
+        let (perm, explained, mismatch) = best.expect("at least one order");
+        let total = n + ops.len() - ad.block;
+        if explained < total && failure.is_none() {
+            let names: Vec<String> = perm.iter().map(|j| format!("{}→{}", ops[1 + j].encode(), block_res[*j])).collect();
+            failure = Some((
+                format!("concurrent:install-during-slow-drop:{}", ad.kind),
+                format!(
+                    "no sequential order of the overlapping ops explains the results; the best one ({}) breaks at {mismatch}; B {}",
+                    names.join(" ; "),
+                    if b_waited { "completed only after the gate opened" } else { "completed while the old object was still being dropped" }
+                ),
+            ));
+        }
+        // ---- the same order for the Lean model: kind `a` as a micro-step schedule (take .. dropPair)
+        let mut req = vec!["init=-".to_string(), ops[0].encode()];
+        results.truncate(1);
+        let mut pending_drop_pair: Option<String> = None;
+        for j in &perm {
+            let it = &ops[1 + j];
+            if ad.kind == 'a' && *j == 0 {
+                let ctx = it.encode().split(':').next().unwrap_or("").to_string();
+                req.push(format!("{ctx}:take"));
+                pending_drop_pair = Some(format!("{ctx}:dropPair"));
+            } else {
+                req.push(it.encode());
+            }
+            results.push(block_res[*j].clone());
+        }
+        // the old pair is gone once the gate has opened, i.e. after every op of the block took effect
+        req.extend(pending_drop_pair);
+        for (it, res) in ops[ad.block..].iter().zip(tail_res.iter()) {
+            req.push(it.encode());
+            results.push(res.clone());
+        }
+        let _ = tail_raw;
+        self.finish(g, &shared, None, &mut failure);
+        Some(AdOutcome {
+            request: req.join(" "),
+            results: results.join(" "),
+            failure,
+            b_waited,
+            order: perm.iter().map(|j| ["A", "B", "C"][*j]).collect::<Vec<_>>().join(""),
+        })
+    }
+}
+
+fn gen_adrace(rng: &mut Rng, kind: char, wait_ms: u64) -> AdCase {
+    let mut threads: Vec<usize> = (0..THREADS).collect();
+    rng.shuffle(&mut threads);
+    let (ta, tb, tc, tp) = (threads[0], threads[1], threads[2], threads[3]);
+    let k = rng.below(RUNTIMES as u64) as usize;
+    let how_a = gen_how(rng, kind != 't');
+    let third = rng.chance(1, 2);
+    let ctx_k = |t: usize| Item { t, r: Some(k), op: Op::IsAttached };
+    let at = |t: usize, r: Option<usize>, op: Op| Item { t, r, op };
+    let mut ops = vec![];
+    let mut e = 1000;
+    let mut next = || {
+        e += 1;
+        e
+    };
+    match kind {
+        'a' => {
+            ops.push(at(ta, None, Op::Attach(1)));
+            ops.push(at(ta, None, Op::DropAttach(how_a)));
+            ops.push(at(tb, None, Op::Attach(2)));
+            if third {
+                ops.push(at(tc, None, if rng.chance(1, 2) { Op::TryAppend(next()) } else { Op::TrySink(next()) }));
+            }
+            for (t, r) in [(tp, None), (tc, Some(k)), (ta, None)] {
+                ops.push(at(t, r, Op::TryAppend(next())));
+            }
+            ops.push(at(tc, None, Op::Append(next())));
+            ops.push(at(tp, None, Op::Sink(next())));
+            ops.push(at(tb, None, Op::IsAttached));
+            ops.push(at(tp, None, Op::Attach(3)));
+            ops.push(at(tp, None, Op::TryAppend(next())));
+            ops.push(at(tc, None, Op::DropAttach(gen_how(rng, true))));
+            ops.push(at(tp, None, Op::TryAppend(next())));
+            ops.push(at(ta, None, Op::IsAttached));
+            ops.push(at(tb, None, Op::Attach(4)));
+            ops.push(at(tp, None, Op::TryAppend(next())));
+            ops.push(at(tb, None, Op::DropAttach(How::Normal)));
+            ops.push(at(tp, None, Op::TryAppend(next())));
+        }
+        'r' => {
+            ops.push(at(ta, None, Op::SetRT(k, 1)));
+            ops.push(at(ta, None, Op::DropRT(k, how_a)));
+            ops.push(if rng.chance(1, 2) { at(tb, None, Op::SetRT(k, 2)) } else { at(tb, Some(k), Op::SetRTCur(2)) });
+            if third {
+                ops.push(at(tc, if rng.chance(2, 3) { Some(k) } else { None }, Op::TryAppend(next())));
+            }
+            for (t, r) in [(tp, Some(k)), (tc, Some(k)), (ta, None), (tp, Some(1 - k))] {
+                ops.push(at(t, r, Op::TryAppend(next())));
+            }
+            ops.push(ctx_k(tb));
+            ops.push(at(tp, None, Op::SetRT(k, 3)));
+            ops.push(at(tp, Some(k), Op::TryAppend(next())));
+            ops.push(at(tc, None, Op::DropRT(k, gen_how(rng, true))));
+            ops.push(at(tp, Some(k), Op::TryAppend(next())));
+            ops.push(at(tb, Some(k), Op::SetRTCur(4)));
+            ops.push(at(tp, Some(k), Op::TryAppend(next())));
+            ops.push(at(tb, None, Op::DropRT(k, How::Normal)));
+            ops.push(at(tp, Some(k), Op::TryAppend(next())));
+        }
+        _ => {
+            ops.push(at(ta, None, Op::SetTL(1)));
+            ops.push(at(ta, None, Op::DropTL(how_a)));
+            ops.push(at(tb, None, Op::SetTL(2)));
+            if third {
+                ops.push(at(tc, None, Op::TryAppend(next())));
+            }
+            for t in [ta, tb, tp] {
+                ops.push(at(t, None, Op::TryAppend(next())));
+            }
+            ops.push(at(ta, None, Op::SetTL(3)));
+            ops.push(at(tb, None, Op::SetTL(4)));
+            ops.push(at(ta, None, Op::TryAppend(next())));
+            ops.push(at(tb, None, Op::TryAppend(next())));
+            ops.push(at(ta, None, Op::DropTL(How::Unwind)));
+            ops.push(at(tb, None, Op::DropTL(How::Normal)));
+            ops.push(at(ta, None, Op::TryAppend(next())));
+            ops.push(at(tb, None, Op::TryAppend(next())));
+        }
+    }
+    AdCase { kind, wait_ms, block: if third { 4 } else { 3 }, case: Case { init: None, ops } }
+}
+
+// ------------------------------------------------------------------------------------------------
 // generators
 
 fn gen_ctx(rng: &mut Rng) -> (usize, Option<usize>) {
@@ -1724,6 +2128,7 @@ struct ShardResult {
     step: Vec<(String, String, bool)>,
     dist: std::collections::BTreeMap<String, u64>,
     races: Vec<(String, RaceOutcome, bool)>,
+    ads: Vec<(String, AdOutcome)>,
     skipped: u64,
     /// shrunk failures: (key, case, impl, what)
     failures: Vec<(String, String, String, String)>,
@@ -1747,7 +2152,7 @@ fn shrink_failure(shard: &mut Shard, case: &Case, orig: Outcome, class: &str) ->
 
 fn run_shard(index: usize, cases: Vec<Case>, races: Vec<Conc>) -> ShardResult {
     let mut shard = Shard::new(index);
-    let mut res = ShardResult { step: vec![], dist: Default::default(), races: vec![], skipped: 0, failures: vec![], search_cases: 0 };
+    let mut res = ShardResult { step: vec![], dist: Default::default(), races: vec![], ads: vec![], skipped: 0, failures: vec![], search_cases: 0 };
     fn bump(d: &mut std::collections::BTreeMap<String, u64>, k: &str) {
         *d.entry(k.to_string()).or_insert(0) += 1;
     }
@@ -1793,9 +2198,46 @@ fn run_shard(index: usize, cases: Vec<Case>, races: Vec<Conc>) -> ShardResult {
         }
     }
     for rc in races {
+        if let Conc::Ad(ad) = &rc {
+            match shard.adrace(ad) {
+                Some(o) => {
+                    if let Some((class, what)) = &o.failure {
+                        let class = if class.starts_with("concurrent:") { class.clone() } else { format!("concurrent:{class}") };
+                        if !failed_classes.contains(&class) {
+                            failed_classes.push(class.clone());
+                            // shrink the ops after the concurrent block (bounded: every failing run may cost a global)
+                            let mut budget = 14;
+                            let tail = shrink_list(&ad.case.ops[ad.block..], |cand| {
+                                if budget == 0 {
+                                    return false;
+                                }
+                                budget -= 1;
+                                let mut c = ad.clone();
+                                c.case.ops.truncate(ad.block);
+                                c.case.ops.extend_from_slice(cand);
+                                matches!(shard.adrace(&c), Some(AdOutcome { failure: Some(_), .. }))
+                            });
+                            let mut small = ad.clone();
+                            small.case.ops.truncate(ad.block);
+                            small.case.ops.extend(tail);
+                            match shard.adrace(&small) {
+                                Some(AdOutcome { failure: Some((_, w)), results, .. }) => {
+                                    res.failures.push((format!("global:{class}"), small.encode(), results, w))
+                                }
+                                _ => res.failures.push((format!("global:{class}"), rc.encode(), o.results.clone(), what.clone())),
+                            }
+                        }
+                    }
+                    res.ads.push((rc.encode(), o));
+                }
+                None => res.skipped += 1,
+            }
+            continue;
+        }
         let (out, class, is_gate) = match &rc {
             Conc::Race(r) => (shard.race(r), "race-detach", false),
             Conc::Gate(g) => (shard.gated(g.third, g.wait_ms, g.how), "race-detach-gated", true),
+            Conc::Ad(_) => unreachable!(),
         };
         match out {
             Some(o) => {
@@ -1834,7 +2276,7 @@ fn main() {
         let line = line.split(" ## ").next().unwrap_or("").to_string();
         if let Some(rc) = Conc::decode(&line) {
             // a race is a schedule sample: repeat it
-            for _ in 0..(if matches!(rc, Conc::Gate(_)) { 5 } else { 200 }) {
+            for _ in 0..(if matches!(rc, Conc::Race(_)) { 200 } else { 5 }) {
                 race_cases[0].push(rc.clone());
             }
         } else if let Some(c) = Case::decode(&line) {
@@ -1895,6 +2337,11 @@ fn main() {
                     _ => r.below(total + 1),
                 };
             }
+            let n_ad = if thorough { 45 } else { 9 };
+            for i in 0..n_ad {
+                let kind = ['a', 'a', 'r', 'a', 'r', 't', 'a', 'r', 'a'][i % 9];
+                race_cases[s].push(Conc::Ad(gen_adrace(&mut r, kind, if thorough { 25 } else { 30 })));
+            }
             let n_gates = if thorough { 30 } else { 6 };
             for i in 0..n_gates {
                 race_cases[s].push(Conc::Gate(GateCase {
@@ -1937,6 +2384,18 @@ fn main() {
             }
             requests.push(enc);
             answers.push((results, None, "global/step"));
+        }
+        for (ci, (enc, o)) in sr.ads.iter().enumerate() {
+            rep.case(&format!("{enc} #{ci}"), true);
+            let kind = enc.split_whitespace().nth(1).unwrap_or("?");
+            rep.bump(&format!("install-during-slow-drop:{kind}: B {}", if o.b_waited { "waited for the old object's drop" } else { "completed at once" }));
+            rep.bump(&format!("install-during-slow-drop:{kind}: explaining order {}", o.order));
+            if ci == 0 {
+                rep.sample(json!({"case": enc, "impl": o.results, "order": o.order}));
+            }
+            rep.traces_validated += 1;
+            requests.push(o.request.clone());
+            answers.push((o.results.clone(), Some(enc.clone()), "global/install-during-slow-drop"));
         }
         for (ci, (enc, o, is_gate)) in sr.races.iter().enumerate() {
             let enc = enc.clone();
